@@ -1,4 +1,6 @@
 //! Fault catalogue of the `build` suite: every well-formedness-breaking edit of a rendered input.
+use crate::build_obs::{Dump, Tok};
+use crate::build_oracle::ref_decode;
 use crate::build_render::*;
 use crate::common::Rng;
 
@@ -22,6 +24,26 @@ const REF_FAULTS: &[(&str, &[&str])] = &[
     ("signed-reference", &["&#+65;", "&#x+41;"]),
 ];
 
+pub const RESERVED_DECLS: &[&str] = &[
+    " xmlns:xml='urn:zzz'",
+    " xmlns:xml=''",
+    " xmlns:xmlns='urn:zzz'",
+    " xmlns:xmlns='http://www.w3.org/2000/xmlns/'",
+    " xmlns:zr='http://www.w3.org/XML/1998/namespace'",
+    " xmlns:zr='http://www.w3.org/2000/xmlns/'",
+    " xmlns='http://www.w3.org/XML/1998/namespace'",
+];
+
+/// A complete element whose end tag spells the start tag's expanded name differently.
+pub const OTHER_PREFIX_END_TAGS: &[&str] = &[
+    "<zp:e xmlns:zp='urn:zz' xmlns:zq='urn:zz'></zq:e>",
+    "<zp:e xmlns:zp='urn:zz' xmlns:zq='urn:zz'>t<zq:f/></zq:e>",
+    "<e xmlns='urn:zz' xmlns:zq='urn:zz'></zq:e>",
+    "<zq:e xmlns='urn:zz' xmlns:zq='urn:zz'></e>",
+    "<zo xmlns:zp='urn:zz' xmlns:zq='urn:zz'><zp:e><zq:e/></zq:e></zo>",
+    "<xml:e xmlns:zq='http://www.w3.org/XML/1998/namespace'></zq:e>",
+];
+
 /// Every (fault name, damaged text) for a rendered input; `all` = every applicable position,
 /// otherwise positions are sampled by the caller.
 pub fn faults(r: &Rendered, rng: &mut Rng, all: bool) -> Vec<(String, String)> {
@@ -41,18 +63,33 @@ pub fn faults(r: &Rendered, rng: &mut Rng, all: bool) -> Vec<(String, String)> {
         out.push(("duplicated-end-tag".into(), insert_at(t, e, &t[s..e])));
         out.push(("mismatched-end-tag".into(), format!("{}</zzq>{}", &t[..s], &t[e..])));
     }
+    // the end tag names the same expanded name through another prefix (or default namespace vs
+    // prefix): an end tag has to repeat the start tag's name as written (XML 1.0 WFC Element Type Match)
+    for i in cap((0..r.close_alts.len()).collect(), rng) {
+        let (s, e, alt) = &r.close_alts[i];
+        out.push(("end-tag-with-other-prefix".into(), format!("{}{}{}", &t[..*s], alt, &t[*e..])));
+    }
     let tags: Vec<usize> = r.tag_points.iter().map(|p| p.at).collect();
     for at in cap(tags.clone(), rng) {
         out.push(("duplicate-attribute-by-expanded-name".into(), insert_at(t, at, " xmlns:zp='urn:z' xmlns:zq='urn:z' zp:k='1' zq:k='2'")));
         out.push(("duplicate-attribute-as-written".into(), insert_at(t, at, " zk='1' zk=\"2\"")));
         out.push(("prefix-declared-twice".into(), insert_at(t, at, " xmlns:zp='urn:z1' xmlns:zp='urn:z2'")));
         out.push(("undeclared-attribute-prefix".into(), insert_at(t, at, " zu:k='1'")));
+        // Namespaces in XML 1.0 section 3 (reserved prefixes and namespace names): `xml` must not be
+        // bound to another name, no other prefix (nor the default namespace) to the XML namespace
+        // name, `xmlns` must not be declared, nothing may be bound to the xmlns namespace name.
+        // (`xmlns:xml="http://www.w3.org/XML/1998/namespace"` is legal: the renderer writes it.)
+        let reserved = *rng.pick(RESERVED_DECLS);
+        out.push(("reserved-prefix-or-namespace-rebound".into(), insert_at(t, at, reserved)));
+        // Namespaces in XML 1.0 section 3, NSC 'No Prefix Undeclaring': only the default namespace can be undeclared
+        out.push(("prefixed-undeclaration".into(), insert_at(t, at, *rng.pick(&[" xmlns:zr=''", " xmlns:zr=\"\""]))));
     }
     for at in cap(r.text_points.clone(), rng) {
         out.push(("raw-lt-in-text".into(), insert_at(t, at, "< ")));
         out.push(("raw-amp-in-text".into(), insert_at(t, at, "& ")));
         out.push(("undeclared-element-prefix".into(), insert_at(t, at, "<zu:e/>")));
         out.push(("unclosed-element".into(), insert_at(t, at, "<zu>")));
+        out.push(("end-tag-with-other-prefix".into(), insert_at(t, at, *rng.pick(OTHER_PREFIX_END_TAGS))));
         out.push(("cdata-end-in-text".into(), insert_at(t, at, "]]>")));
         out.push(("double-hyphen-in-comment".into(), insert_at(t, at, "<!-- a -- b -->")));
         if !t[at..].starts_with(';') {
@@ -92,6 +129,13 @@ pub fn faults(r: &Rendered, rng: &mut Rng, all: bool) -> Vec<(String, String)> {
         out.push(("duplicate-xml-id".into(), s1));
         let s2 = insert_at(&insert_at(t, b, " xml:id='  dupv '"), a, " xml:id='dupv'");
         out.push(("duplicate-xml-id-after-normalisation".into(), s2));
+        // the same through a prefix that is bound to the XML namespace: it is the expanded name
+        // that makes an attribute an xml:id (both orders, values that need normalisation)
+        let alias = " xmlns:zx='http://www.w3.org/XML/1998/namespace' zx:id='  dupv '";
+        let alias2 = " zx:id=\"dupv  \" xmlns:zx=\"http://www.w3.org/XML/1998/namespace\"";
+        out.push(("duplicate-xml-id-via-other-prefix".into(), insert_at(&insert_at(t, b, alias), a, " xml:id='dupv'")));
+        out.push(("duplicate-xml-id-via-other-prefix".into(), insert_at(&insert_at(t, b, " xml:id=' dupv'"), a, alias2)));
+        out.push(("duplicate-xml-id-via-other-prefix".into(), insert_at(&insert_at(t, b, alias), a, alias2)));
     }
     if r.fragment {
         for at in cap(r.top_points.clone(), rng) {
@@ -123,3 +167,34 @@ pub fn faults(r: &Rendered, rng: &mut Rng, all: bool) -> Vec<(String, String)> {
     out
 }
 
+pub const XMLNS_NS: &str = "http://www.w3.org/2000/xmlns/";
+
+/// Namespaces in XML 1.0 on the declarations among the tokens: (a reserved prefix or namespace
+/// name is bound against section 3, a prefix is declared with an empty namespace name, the prefix
+/// `xml` itself is bound to another namespace name — a special case of the first).
+/// `xmlns:xml="http://www.w3.org/XML/1998/namespace"` is legal.
+pub fn namespace_constraint_violations(dump: &Dump) -> (bool, bool, bool) {
+    let (mut reserved, mut undeclared, mut xml_rebound) = (false, false, false);
+    for t in &dump.toks {
+        if let Tok::Attr { prefix, local, value, .. } = t {
+            let p = if prefix == "xmlns" {
+                local.as_str()
+            } else if prefix.is_empty() && local == "xmlns" {
+                ""
+            } else {
+                continue;
+            };
+            let uri = match ref_decode(value, true) {
+                Some(u) => u,
+                None => continue,
+            };
+            if p == "xmlns" || uri == XMLNS_NS || (p == "xml") != (uri == XML_NS) {
+                reserved = true;
+                xml_rebound |= p == "xml" && uri != XML_NS;
+            } else if !p.is_empty() && uri.is_empty() {
+                undeclared = true;
+            }
+        }
+    }
+    (reserved, undeclared, xml_rebound)
+}
